@@ -60,15 +60,22 @@ seq_t dtw_warping_paths{{ suffix }}{{ suffix2 }}(seq_t *wps,
 
     {%- if "affinity" not in suffix %}
     if (settings->use_pruning || settings->only_ub) {
+        {%- if "euclidean" == inner_dist %}
+        if (ndim == 1) {
+            p.max_dist = ub_euclidean_euclidean(s1, l1, s2, l2);
+        } else {
+            p.max_dist = ub_euclidean_ndim_euclidean(s1, l1, s2, l2, ndim);
+        }
+        if (settings->only_ub) {
+            return p.max_dist;
+        }
+        {%- else %}
         if (ndim == 1) {
             p.max_dist = ub_euclidean(s1, l1, s2, l2);
         } else {
             p.max_dist = ub_euclidean_ndim(s1, l1, s2, l2, ndim);
         }
-        {%- if "euclidean" == inner_dist %}
-        {%- else %}
         p.max_dist = pow(p.max_dist, 2);
-        {%- endif %}
         if (settings->only_ub) {
             if (keep_int_repr) {
                 return p.max_dist;
@@ -76,7 +83,6 @@ seq_t dtw_warping_paths{{ suffix }}{{ suffix2 }}(seq_t *wps,
                 return sqrt(p.max_dist);
             }
         }
-        {%- if "euclidean" != inner_dist %}
         // The sqrt/pow round trip can make the bound an ulp smaller than the cost of
         // the path it was computed from
         p.max_dist *= (1 + 1e-14);
